@@ -10,6 +10,11 @@ CHECKS = {
          "GRL text is generated from the grammar of the typed core, parsed and executed by the real engine through execute_with_callback; every firing, every rule passed over between two firings and every stored value is judged against the reference evaluator on the fact snapshots the engine really was in (pre-state = snapshot after the previous firing). Held = no judged firing/non-firing/assignment of any explored run disagreed; operand combinations the documentation leaves open are skipped and counted, not judged.",
          "Trusts the reference semantics of DESIGN.md §4.2 and the harness's GRL printer; assumes rank-order consideration within passes (checked by C02/C03; a contradicting run is not judged and makes the check inconclusive). Says nothing about plugins, functions, pattern CEs, method calls.",
          "DESIGN.md §5 C01"),
+ "C02": ("exploration",
+         "online trace monitors (one per clause: order, enable/date/focus, no-loop, activation group, lock-on-active) over call histories on one engine",
+         "Histories of execute_at_time / execute / focus / activation / reset / enable calls run on one real engine; firings are observed through a custom action handler that every generated rule calls last (with a fact snapshot), pass boundaries through hook H2, focus through get_active_agenda_group at every call boundary. Each clause of the statement is an upper-bound or ordering monitor over that trace; the activation-group 'highest' clause is judged with the reference evaluator on the snapshot at the higher-ranked member's turn. Held = no event of any explored history broke a clause.",
+         "Attributes are set on parsed Rule objects, not via GRL attribute syntax (C04 owns that). Readings the statement leaves open are accepted (activation taking effect immediately or at the next pass; firing exactly at the expiry instant). Upper-bound clauses cannot see a rule that wrongly never fires (C01/C03 do).",
+         "DESIGN.md §5 C02"),
  "C03": ("exploration",
          "trace monitor over result counters, callback count, per-pass firing counts (hook H2) and a reference fixpoint check; logical step bounds decide termination",
          "Self-triggering, mutually triggering and quiescing programs are run with every max_cycles in 0..=64 (a fixed family exhaustively over that grid, random programs beyond); the monitor checks cycle_count and passes against the bound, fired count against callbacks, that only the last pass may fire nothing and that an early stop happened exactly after an empty pass, and re-evaluates every still-eligible rule on the final facts with the reference evaluator. A run that makes more than max_cycles+1 passes or more than max_cycles x #rules firings is stopped by the monitor (logical bound); shards run in child processes with a CPU limit as back-stop.",
